@@ -311,6 +311,10 @@ pub fn run() {
                     texts.push(t);
                 }
             }
+            // files without any content, or without anything but line ends and blanks
+            for t in ["", "\n", "\r\n", " ", "\t\n", "\n\n\n", "\u{feff}", ";", "#"] {
+                texts.push(t.to_string());
+            }
             texts.sort();
             texts.dedup();
             let files: Vec<(std::path::PathBuf, &String)> = texts.iter().enumerate().map(|(i, t)| (dir.join(format!("p{}.asm", i)), t)).collect();
